@@ -53,7 +53,7 @@ class C08(CheckBase):
     stubbed_components = ['results of faulted open/read/write calls (decided by simkernel)']
 
     def budget(self, tier):
-        return 2500 if tier == 'quick' else 60000
+        return 5000 if tier == 'quick' else 80000
 
     def time_cap(self, tier):
         return 600 if tier == 'quick' else 5400
